@@ -215,7 +215,7 @@ def parse_clauses(lines, kind, fn, known=None, loop=None, counter=None):
         ind = len(ln) - len(ln.lstrip())
         if base is None:
             base = ind
-        if ind <= base or ln.lstrip().startswith('['):
+        if (ind <= base or ln.lstrip().startswith('[')) and not (res and ln.lstrip()[:1] in '})'):
             res.append([ln.strip()])
         else:
             res[-1].append(ln.strip())
@@ -589,7 +589,7 @@ class Generator:
             if where == 'after':
                 # snap to the end of the statement the anchor lies in
                 if bm[b - 1] not in ';{}':
-                    j, depth = b, 0
+                    j, depth = a, 0     # scan from the start of the anchor so brackets it opens are balanced
                     while j < len(bm):
                         ch = bm[j]
                         if ch in '([{':
